@@ -53,7 +53,9 @@ def main():
                 res = ("ok", bool(conforms), sorted(repr(result_key(rg, r, dg, sg)) for r in tops),
                        int(re.search(r"Results \((\d+)\)", text).group(1)) if "Results (" in text else 0)
             else:
-                res = ("failure", str(rg)[:200])
+                # which of several failing constraints is met first follows the (unordered) iteration over shapes:
+                # the property fixes verdict and results, not the wording of a failure
+                res = ("failure", type(rg).__name__)
     except Exception as e:
         res = ("exc", type(e).__name__)
     pickle.dump(res, open(sys.argv[2], "wb"))
